@@ -457,27 +457,20 @@ fn err_kind(e: &c2pa::Error) -> String {
 }
 
 fn urn_order(txt: &str) -> Vec<(usize, String)> {
-    let b = txt.as_bytes();
-    let mut urns: Vec<String> = vec![];
-    let mut i = 0;
-    while i < b.len() {
-        if b[i..].starts_with(b"urn:c2pa:") || b[i..].starts_with(b"urn:uuid:") {
-            let mut end = i;
-            while end < b.len() && !matches!(b[end], b'"' | b'/' | b'\\' | b' ') {
-                end += 1;
-            }
-            let u = String::from_utf8_lossy(&b[i..end]).to_string();
-            if !urns.contains(&u) {
-                urns.push(u);
-            }
-            i = end.max(i + 1);
-        } else {
-            i += 1;
+    // Only the active manifest's URN is new in every signing run; ingredient manifests keep the labels they have in
+    // their own assets (identical on both sides of every comparison made here). Renaming by order of first
+    // appearance in the JSON text would depend on the iteration order of the reader's manifest HashMap.
+    let v: Value = serde_json::from_str(txt).unwrap_or(Value::Null);
+    match v["active_manifest"].as_str() {
+        Some(l) => {
+            let u = match l.find("urn:") {
+                Some(i) => &l[i..],
+                None => l,
+            };
+            vec![(0, u.to_string())]
         }
+        None => vec![],
     }
-    let mut order: Vec<(usize, String)> = urns.into_iter().enumerate().collect();
-    order.sort_by_key(|(_, u)| std::cmp::Reverse(u.len()));
-    order
 }
 
 fn rename_urns(s: &str, order: &[(usize, String)]) -> String {
@@ -794,7 +787,9 @@ fn run_flavour(c: &Case, env: &Env, is_async: bool) -> (Outcome, Vec<(String, u3
                 dh.set_hash(hash);
                 let m = if is_async { block_on(b.sign_data_hashed_embeddable_async(&AsyncView(signer.clone()), &dh, &fmt))? } else { b.sign_data_hashed_embeddable(&*signer, &dh, &fmt)? };
                 if m.len() != ph.len() {
-                    return Ok((out, Some(format!("signed manifest {} bytes vs placeholder {}", m.len(), ph.len()))));
+                    // (C15's subject: the signed manifest does not have the placeholder's size; sizes vary from run to run
+                    // with compressed manifests, so the normal form only records the fact)
+                    return Ok((out, Some(if m.len() > ph.len() { "signed manifest larger than placeholder" } else { "signed manifest smaller than placeholder" }.to_string())));
                 }
                 out[at..at + m.len()].copy_from_slice(&m);
                 Ok((out, None))
@@ -913,10 +908,19 @@ fn judge(run: &Run, c: &Case, selftest: &str) -> CaseResult {
     if s == a {
         return Ok(());
     }
-    // control: is the sync form stable under this normalisation?
+    // control: are both forms stable under this normalisation?
     let (s2, _, _) = run_flavour(c, &env, false);
-    if s2 != s {
+    let (a2, _, _) = run_flavour(c, &env, true);
+    if s2 != s || (a2 != a && selftest.is_empty()) {
         run.count(&format!("control-unstable(not judged):{}", op_name(op)));
+        static NOTES: AtomicUsize = AtomicUsize::new(0);
+        if NOTES.fetch_add(1, Ordering::SeqCst) < 8 {
+            let d = match (&s, &s2) {
+                (Outcome::Ok(x), Outcome::Ok(y)) => defgen::first_diff(x, y, "").unwrap_or_else(|| "?".into()),
+                _ => format!("{} vs {}", s.short(), s2.short()),
+            };
+            run.note(format!("control-unstable {} (signer {}, settings {}, a {}): two sync runs differ: {d}; async: {}", op_name(op), c.signer % N_SIGNERS, c.settings % N_SETTINGS, c.a, a.short()));
+        }
         return Ok(());
     }
     let class = match (&s, &a) {
@@ -1019,7 +1023,7 @@ fn main() {
     run.extra("grid_cases", json!(grid.len()));
     run.drive_enum_par("grid", grid, run.scale(4, 12), |c| judge(&run, c, &selftest));
 
-    let n = run.scale(120, 6000);
+    let n = run.scale(200, 6000);
     run.drive_par("pairs", n, run.scale(4, 16), case_strategy(), |c| judge(&run, c, &selftest));
     if let Ok(t) = tsa() {
         let _ = std::fs::remove_dir_all(&t.dir);
